@@ -286,6 +286,9 @@ func runQueryWire(c *Ctx, pr *PropertyRun, prop, pkg string) {
 		}
 	}
 
+	// ---- hrefs are decoded paths
+	urlParseRule(c, pr, prop, nil)
+
 	// ---- round trip
 	rt := NewRule(prop, prop+".roundtrip", "for every query within the bounds, the value the server's backend receives equals the value the caller handed to the client: decode o encode = id at struct level, both codecs interpreted from SSA (E2)")
 	rt.Exhaustive = true
